@@ -1,6 +1,6 @@
 ---- MODULE TraceRunLimit ----
 (* Trace validation: are executions recorded from the real BasicRuntime (num_concurrent_runs)       *)
-(* behaviours of RunLimit.tla?  One event = a batch of driver commands (start/finish/cancel) issued  *)
+(* behaviours of RunLimit.tla?  One event = a batch of driver commands (start/finish/fail/cancel) issued  *)
 (* at a quiescence point of the event loop, followed by the projected state at the next quiescence  *)
 (* point; the task steps in between are inferred by TLC.  start/cancel reach the runtime through    *)
 (* loop.call_soon, so they may interleave with task steps of the same batch.                        *)
@@ -30,6 +30,7 @@ ApplyCmd ==
   /\ LET c == Ev.cmds[ci] IN
        \/ c[1] = "start" /\ Start(c[2])
        \/ c[1] = "finish" /\ Finish(c[2])
+       \/ c[1] = "fail" /\ Fail(c[2])
        \/ c[1] = "cancel" /\ Cancel(c[2])
   /\ ci' = ci + 1 /\ UNCHANGED <<tid, l>>
 
